@@ -424,6 +424,137 @@ def UNFIT_TIDS(types):
     return tuple(f"T d{t['tid']} " for t in types if not enumerable([t]))
 
 
+# ------------------------------------------------------------------------------- derive output vs declaration
+
+TRANSPARENT = ("Option", "Box", "core::cell::Cell", "core::cell::RefCell", "std::rc::Rc", "std::sync::Arc", "std::rc::Weak",
+               "std::sync::Weak", "std::sync::Mutex", "std::sync::RwLock", "Cell", "RefCell", "Rc", "Arc", "Mutex", "RwLock")
+NAMED_BUILTINS = {"core::ops::Range": (["start", "end"], [0, 0]), "core::ops::RangeInclusive": (["start", "end"], [0, 0]),
+                  "core::ops::RangeFrom": (["start"], [0]), "core::ops::RangeTo": (["end"], [0]),
+                  "core::ops::Bound": (["Included", "Excluded"], [0, 0]), "Result": (["Ok", "Err"], [0, 1])}
+
+
+def split_top(s, sep=","):
+    out, depth, cur = [], 0, ""
+    for ch in s:
+        if ch in "<([":
+            depth += 1
+        elif ch in ">)]":
+            depth -= 1
+        if ch == sep and depth == 0:
+            out.append(cur)
+            cur = ""
+        else:
+            cur += ch
+    if cur.strip():
+        out.append(cur)
+    return [x.strip() for x in out]
+
+
+def resolve_type(ty, derived):
+    """the schema a Rust type text denotes, reading derived types from the derive's OUTPUT (`derived`: ident -> reading)
+    and the built-in containers as documented"""
+    ty = re.sub(r"\s+", "", ty)
+    ty = re.sub(r"^&(mut)?('[a-z_]+)?", "", ty)
+    if ty.startswith("[") and ty.endswith("]"):
+        inner, n = split_top(ty[1:-1], ";")
+        return ("array", int(re.sub(r"usize$", "", n)), resolve_type(inner, derived))
+    if ty.startswith("(") and ty.endswith(")"):
+        parts = split_top(ty[1:-1])
+        return ("node", None, [resolve_type(p, derived) for p in parts])
+    m = re.fullmatch(r"([A-Za-z_0-9:]+)(?:<(.*)>)?", ty)
+    if not m:
+        raise ValueError(f"type text {ty!r}")
+    head, args = m.group(1), split_top(m.group(2)) if m.group(2) else []
+    args = [a for a in args if not a.startswith("'")]
+    if head in ("Leaf", "StrLeaf", "Deny"):
+        return ("leaf",)
+    if head in TRANSPARENT:
+        return resolve_type(args[0], derived)
+    if head in ("std::borrow::Cow", "Cow"):
+        return resolve_type(args[0], derived)
+    if head in NAMED_BUILTINS:
+        names, kids = NAMED_BUILTINS[head]
+        return ("node", list(names), [resolve_type(args[k], derived) for k in kids])
+    if head in derived:
+        d = derived[head]
+        kids = [resolve_type(c, derived) for c in d["children"]]
+        if d["flatten"]:
+            return kids[0]
+        return ("node", list(d["lookup"][1]) if d["lookup"][0] == "named" else None, kids)
+    raise ValueError(f"type {head!r} is neither derived in the corpus nor a known container")
+
+
+def derive_reading_check(rep, all_types):
+    """What the derive macro GENERATES for every corpus type (read from its expansion: lookup names, child types, arm order)
+    must denote the schema the corpus generator reads off the type DEFINITION — which is the schema the Lean model and
+    every oracle of this run use for that type."""
+    sys.path.insert(0, os.path.join(VERIF, "extract"))
+    import gen_derive
+    types_rs = os.path.join(HARNESS, "src", "gen_types.rs")
+    try:
+        derived = {d["ident"]: d for d in gen_derive.structure(types_rs)}
+    except Exception as e:  # Unsupported: reported by the proof layer as well
+        rep.violation("proof", {"theorem_or_translator": f"gen_derive: {type(e).__name__}: {e}"}, no_input=True)
+        return {}
+    roots = dict(re.findall(r"pub type C(\d+) = (.*);", open(types_rs).read()))
+    bad, n = [], 0
+    for t in all_types:
+        text = roots.get(str(t["tid"]))
+        if text is None:
+            bad.append({"type": t["label"], "why": "no `pub type C<tid>` in gen_types.rs"})
+            continue
+        try:
+            got = resolve_type(text, derived)
+        except ValueError as e:
+            bad.append({"type": t["label"], "why": str(e)})
+            continue
+        n += 1
+        if got != T.tup(t["schema"]):
+            bad.append({"type": t["label"], "rust": t["rust"][:300], "derive_output_denotes": repr(got)[:400],
+                        "declaration_denotes": repr(T.tup(t["schema"]))[:400]})
+    # value level: arm i of every by-key function must use the place / accessor / validator / denial of the i-th retained
+    # field (variant) of the DEFINITION — the corpus generator's own record of what it wrote (`decls` in corpus.json)
+    decls = json.load(open(os.path.join(HARNESS, "gen", "corpus.json"))).get("decls", {})
+    OPS = {"ser": ("ser", "serialize", False), "de": ("de", "deserialize", True), "ref": ("any", "ref_any", False),
+           "mut": ("any", "mut_any", True)}
+    n_arms = 0
+    for ident, dc in decls.items():
+        d = derived.get(ident)
+        if d is None:
+            bad.append({"type": ident, "why": "declared in the corpus but no derive output was read"})
+            continue
+        if d["flatten"] != dc["flat"] or len(d["children"]) != len(dc["arms"]):
+            bad.append({"type": ident, "why": f"flatten / number of children: derive output {d['flatten']}, {len(d['children'])}; "
+                                              f"definition {dc['flat']}, {len(dc['arms'])}"})
+            continue
+        for op, (trait, denyname, mutating) in OPS.items():
+            if trait not in dc["traits"]:
+                continue
+            got = d["value"][op]
+            if got["enum"] != (dc["kind"] == "enum") or got["default"] != ("absent0" if dc["kind"] == "enum" else "unreachable"):
+                bad.append({"type": ident, "why": f"{op}: match shape {got['enum']}/{got['default']} for a {dc['kind']}"})
+                continue
+            for i, (ga, da) in enumerate(zip(got["arms"], dc["arms"])):
+                n_arms += 1
+                if denyname in da["deny"]:
+                    want = {"deny": da["deny"][denyname], "variant": da["variant"]}
+                else:
+                    want = {"place": da["place_mut"] if mutating else da["place"],
+                            "get": da["get_mut"] if mutating else da["get"],
+                            "validate": da["validate"] if op == "de" else 0, "variant": da["variant"]}
+                if ga != want:
+                    bad.append({"type": ident, "why": f"{op} arm {i}: the derive output uses {ga}, the definition's {i}-th retained "
+                                                      f"field / variant ({da['name']!r}) requires {want}"})
+            names = [a["name"] for a in dc["arms"]]
+            if not d["flatten"] and dc["kind"] != "tstruct" and list(d["lookup"][1]) != names:
+                bad.append({"type": ident, "why": f"lookup names {d['lookup'][1]} vs definition {names}"})
+    for b in bad[:5]:
+        rep.violation("oracle", {"case": f"derive({b['type']})", "why": "the code generated by the derive macro for this type does "
+                                 "not have the lookup / children / arm order its declaration denotes", **b})
+    return {"derived_types_read": len(derived), "corpus_types_compared": n, "value_level_arms_compared": n_arms,
+            "mismatches": len(bad)}
+
+
 def run_typelevel(rep, prop_id, cases_fn, rng, tier, rule, assumptions, allow_bv=False):
     if tier == "thorough":
         try:
@@ -451,8 +582,10 @@ def _run_typelevel(rep, prop_id, cases_fn, rng, tier, rule, assumptions, allow_b
                       no_input=True)
     n = len(c.lines) - c.n_decl
     hyp = hypothesis_check(rep, c.lines[:c.n_decl], expect_unfit=UNFIT_TIDS(all_types))
+    drv = derive_reading_check(rep, all_types)
     rep.coverage = {
         "hypotheses_on_corpus": hyp,
+        "derive_output_vs_declaration": drv,
         "obligations": pl["obligations"],
         "discharged": pl["discharged"] if not pl["failures"] else min(pl["discharged"], max(pl["obligations"] - 1, 0)),
         "checker_cmd": f"cd lean && lake build MiniconfVerif.Props.{prop_id} && lake env lean MiniconfVerif/Audit/{prop_id}.lean",
